@@ -459,27 +459,31 @@ func (p *Parser) checkNewVariableNameToken(token lexer.Token, ctx context) error
 
 func (p *Parser) getUsedFuncs(startFunc string) []string {
 	usedFuncs := []string{}
-	startFunc = strings.TrimSpace(startFunc)
+	p.collectUsedFuncs(strings.TrimSpace(startFunc), &usedFuncs, map[string]bool{})
+
+	return usedFuncs
+}
+
+// collectUsedFuncs walks the call graph depth first. Every function is only
+// visited once, otherwise the effort grows exponentially with shared callees.
+func (p *Parser) collectUsedFuncs(startFunc string, usedFuncs *[]string, visited map[string]bool) {
+	if visited[startFunc] {
+		return
+	}
+	visited[startFunc] = true
 
 	if usedFuncsTemp, exists := p.usedFuncs[startFunc]; exists {
-		if len(startFunc) > 0 && !slices.Contains(usedFuncs, startFunc) {
-			usedFuncs = append(usedFuncs, startFunc)
+		if len(startFunc) > 0 && !slices.Contains(*usedFuncs, startFunc) {
+			*usedFuncs = append(*usedFuncs, startFunc)
 		}
 
 		for _, usedFuncTemp := range usedFuncsTemp {
-			if !slices.Contains(usedFuncs, usedFuncTemp) {
-				usedFuncs = append(usedFuncs, usedFuncTemp)
+			if !slices.Contains(*usedFuncs, usedFuncTemp) {
+				*usedFuncs = append(*usedFuncs, usedFuncTemp)
 			}
-			usedSubFuncs := p.getUsedFuncs(usedFuncTemp)
-
-			for _, usedSubFunc := range usedSubFuncs {
-				if !slices.Contains(usedFuncs, usedSubFunc) {
-					usedFuncs = append(usedFuncs, usedSubFunc)
-				}
-			}
+			p.collectUsedFuncs(strings.TrimSpace(usedFuncTemp), usedFuncs, visited)
 		}
 	}
-	return usedFuncs
 }
 
 func (p *Parser) cleanProgram(program Program) (Program, error) {
